@@ -985,6 +985,21 @@ class Interp(object):
             if not is_sym(b) and b > 0 and to_z3(a).sort() == z3.IntSort():
                 return to_z3(a) / b
             raise Undecided('floor division')
+        if isinstance(op, (ast.BitAnd, ast.BitOr)) and (is_sym(a) != is_sym(b)):
+            # bit operation between a constant and a value that is an if-then-else tree over constants (flags merged by if-conversion):
+            # applied to the leaves
+            sym, con = (a, b) if is_sym(a) else (b, a)
+            f = (lambda x: x & con) if isinstance(op, ast.BitAnd) else (lambda x: x | con)
+
+            def leaves(e):
+                e = z3.simplify(e) if not z3.is_int_value(e) else e
+                if z3.is_int_value(e):
+                    return z3.IntVal(f(e.as_long()))
+                if z3.is_app_of(e, z3.Z3_OP_ITE):
+                    return z3.If(e.arg(0), leaves(e.arg(1)), leaves(e.arg(2)))
+                raise Undecided('binop %s on a symbolic integer' % type(op).__name__)
+            if isinstance(con, int) and not isinstance(con, bool) and isinstance(sym, z3.ArithRef) and sym.sort() == z3.IntSort():
+                return leaves(sym)
         if isinstance(op, ast.BitAnd) and not is_sym(a) and not is_sym(b):
             return a & b
         if isinstance(op, ast.BitOr) and not is_sym(a) and not is_sym(b):
